@@ -32,10 +32,11 @@ Consume ==
            b7 == IF e.r = "bad" /\ won THEN {"MalformedRefused"} ELSE {}
            b8 == IF Len(e.stores) > 1 \/ Len(e.regions) > 1 THEN {"StoredFromWinner"} ELSE {}
            \* the region storage holds nothing before there is a winner and nothing but the winner's region afterwards
+           b10 == (IF ~e.meta_id_same THEN {"ClusterIdStable"} ELSE {}) \cup (IF ~e.foreign_config_refused THEN {"ForeignClusterIdRefused"} ELSE {})
            b9 == IF ~(ToSet(e.rs_regions) \subseteq (IF w2 = "" THEN {} ELSE {wr})) THEN {"RegionStorageFromWinner"} ELSE {}
        IN tr' = tr /\ winner' = w2 /\ wstore' = ws /\ wregion' = wr /\ cid' = cid
           /\ wellformedDone' = (wellformedDone \/ (e.r # "bad" /\ e.res \in {"won", "refused", "error"}))
-          /\ bad' = bad \cup {<<tr, c, l>> : c \in b1 \cup b2 \cup b3 \cup b4 \cup b5 \cup b6 \cup b7 \cup b8 \cup b9}
+          /\ bad' = bad \cup {<<tr, c, l>> : c \in b1 \cup b2 \cup b3 \cup b4 \cup b5 \cup b6 \cup b7 \cup b8 \cup b9 \cup b10}
 Spec == Init /\ [][Consume]_vars
 HW == IF l > TLCGet(1) THEN TLCSet(1, l) /\ TLCSet(2, bad) ELSE TRUE
 AllConsumed == PrintT(<<"HW", TLCGet(1)>>) /\ PrintT(<<"BAD", TLCGet(2)>>) /\ TLCGet(1) = Len(Trace) + 1
